@@ -168,6 +168,9 @@ NAME_POOLS = [
     ['start', 'accept', 'trap1', 'q_accept', 'M1', 'P1', 'q1', 'q0'],
     ['n10', 'n2', 'n33', 'n4', 'n05', 'n6', 'n77', 'n8'],
     ['aa', 'ab', 'ba', 'bb', 'a', 'b', 'aaa', 'bbb'],
+    ['q1', 'q10', 'q11', 'q100', 'q2', 'q20', 'q101', 'q12'],
+    ['1', '10', '11', '2', '21', '100', '12', '0'],
+    ['p', 'p1', 'pp', 'r', 'rp', 'p1r', 'r1', 'pr'],
 ]
 
 
@@ -230,3 +233,11 @@ def thompson_nfas(rng, count, max_nodes=12):
             continue
         out.append(rx.thompson(t, 'ab'))
     return out
+
+
+def maybe_digits(rng, R, p=0.25):
+    """with probability p the same automaton over digit symbols (they print like the regexp constants and
+    sort / compare differently from letters)"""
+    if R[1] and len(R[1]) <= 3 and rng.random() < p:
+        return with_alphabet(R, rng.choice([('0', '1', '2'), ('1', '0', '2'), ('0', '1', 'a')])[:len(R[1])])
+    return R
